@@ -999,6 +999,28 @@ fn label(spec: &AnnotWb, obs: &mut Obs) {
         if s.links.iter().any(|l| special(&l.target)) {
             obs.class("hyperlink:special-target");
         }
+        // a degenerate external target (empty, blanks only, blanks at the edges) in front of other
+        // external links: both parts must still number the links alike
+        {
+            let mut sorted: Vec<&LinkSpec> = s.links.iter().collect();
+            sorted.sort_by_key(|l| (l.row, l.col));
+            for (k, l) in sorted.iter().enumerate() {
+                if l.internal {
+                    continue;
+                }
+                if let Some(c) = degenerate_url_class(&l.target) {
+                    obs.class(format!("hyperlink:degenerate-url:{}", c));
+                    if sorted[k + 1..].iter().any(|x| !x.internal) {
+                        obs.class(format!(
+                            "hyperlink:degenerate-url-before-external{}{}{}",
+                            if s.comments.is_empty() { "" } else { "+comments" },
+                            if s.page.object_data.is_some() { "+printer-settings" } else { "" },
+                            if s.table.is_some() { "+table" } else { "" }
+                        ));
+                    }
+                }
+            }
+        }
         // an internal link that is written before an external one (the writers go by row, then
         // column): the sheet part and the relationships part must agree that only external
         // links take a relationship id
